@@ -205,10 +205,14 @@ class Assembly(composites.Composite):
     def moveTo(self, locator):
         """Move an assembly somewhere else."""
         oldSymmetryFactor = self.getSymmetryFactor()
+        oldLocator = self.spatialLocator
         composites.Composite.moveTo(self, locator)
         if self.lastLocationLabel != self.DATABASE:
             self.p.numMoves += 1
             self.p.daysSinceLastMove = 0.0
+        if self.parent.childrenByLocator.get(oldLocator) is self:
+            # the vacated location no longer holds this assembly
+            del self.parent.childrenByLocator[oldLocator]
         self.parent.childrenByLocator[locator] = self
         # symmetry may have changed (either moving on or off of symmetry line)
         self.clearCache()
